@@ -68,6 +68,10 @@ class CFG:
                         p[e[2]].append((b.id, i))
                     else:
                         p[e].append((b.id, i))
+            # statements that are pure terminators (break/continue/goto): position = end of their block
+            for b in self.blocks.values():
+                if b.ts is not None and b.ts not in p and b.tk in ("BreakStmt", "ContinueStmt", "GotoStmt"):
+                    p[b.ts].append((b.id, len(b.elems)))
             self._pos = p
         return self._pos
 
